@@ -1,4 +1,8 @@
-(* Generated from Model/Loop.v: one-step unfolding equations of the mutual block. *)
+(* One-step unfolding equations of the mutual block of Model/Loop.v (el_close ... hcall),
+   the named inner loop of el_open and el_open in three parts.  Every lemma is proved by
+   `reflexivity`: the right-hand sides are the text of Model/Loop.v (the first part of this
+   file was produced by cutting each `| S f => ...` branch out of the model; if the model
+   text changes, the failing lemma shows which body to paste again). *)
 From GV Require Import Lib.Trace Model.Loop.
 Open Scope string_scope.
 Open Scope list_scope.
@@ -381,4 +385,135 @@ Proof. reflexivity. Qed.
 
 Lemma hcall_O : forall (cid : Z) (call : string) (args : list arg) (w : world),
   hcall O cid call args w = (desync "fuel" w).
+Proof. reflexivity. Qed.
+
+Definition open_loop (cid : Z) :=
+  fix open_loop (k : nat) (data : list Z) (w : world) : bool * world :=
+           match k with
+           | O => (false, desync "fuel" w)
+           | S k' =>
+             match data with
+             | [] =>
+               (* unix.Write is still called once with an empty slice *)
+               match sys_wr cid (c_fd (wc w cid)) [] true w with
+               | (KErr e, w') => if is_eagain e then (true, w') else (false, w')
+               | (_, w') => (true, w')
+               end
+             | _ =>
+             match sys_wr cid (c_fd (wc w cid)) data true w with
+             | (KErr e, w') =>
+                 if is_eagain e then
+                   let c' := wc w' cid in (true, wsetc w' cid (c_set_out c' (c_out c' ++ data)))
+                 else (false, w')
+             | (KOk n _, w') =>
+                 match zdrop n data with
+                 | [] => (true, w')
+                 | rest => open_loop k' rest w'
+                 end
+             | (KNone, w') => (true, w')
+             end
+             end
+           end.
+
+Lemma el_open_unfold : forall (fuel : nat) (cid : Z) (w : world),
+  el_open fuel cid w =
+  (let c := wc w cid in
+  let w1 := wsetc w cid (c_set_opened c true) in
+  let w2 := emit (obs "cb" [ASym "open"; AInt cid]) w1 in
+  let '(act, reply, w3) := handler fuel cid w2 in
+  if negb (c_opened (wc w3 cid)) then      (* closed inside OnOpen *)
+    match act with
+    | AShutdown => (RShutdown, w3)
+    | _ => (RNil, w3)                      (* handleAction: close of a closed connection is a no-op *)
+    end
+  else
+  (* c.open(out) *)
+  let '(ok, w4) :=
+    match reply with
+    | None => (true, w3)
+    | Some data =>
+      let c3 := wc w3 cid in
+      let w3 := if c_udp c3 then w3 else ghost "openreply" cid [] (ghost "sub" cid data w3) in
+      if c_udp c3 && negb (c_remote c3) then
+        match sys "sendto" [AInt (c_fd c3); ABytes data; bool_arg false] w3 with
+        | (KErr _, w') => (false, w')
+        | (_, w') => (true, w')
+        end
+      else if (match c_out c3 with [] => false | _ => true end) then
+        (true, wsetc w3 cid (c_set_out c3 (c_out c3 ++ data)))
+      else
+        (open_loop cid) (S (List.length (inp w3))) data w3
+    end in
+  let w4 := ghost "openreply-end" cid [] w4 in
+  if negb ok then (RErr, w4)
+  else
+    let c4 := wc w4 cid in
+    let '(r5, w5) :=
+      match c_out c4 with
+      | _ :: _ => if l_et (st w4) then (RNil, w4) else epctl "mod" (c_fd c4) true false w4
+      | [] => (RNil, w4)
+      end in
+    match r5 with
+    | RNil =>
+      match act with
+      | ANone => (RNil, w5)
+      | AClose => el_close fuel cid true w5
+      | AShutdown => (RShutdown, w5)
+      end
+    | r => (r, w5)
+    end).
+Proof. reflexivity. Qed.
+
+(* el_open in three parts: announce, write the OnOpen reply, arm and act *)
+Definition open_reply (cid : Z) (reply : option (list Z)) (w3 : world) : bool * world :=
+    match reply with
+    | None => (true, w3)
+    | Some data =>
+      let c3 := wc w3 cid in
+      let w3 := if c_udp c3 then w3 else ghost "openreply" cid [] (ghost "sub" cid data w3) in
+      if c_udp c3 && negb (c_remote c3) then
+        match sys "sendto" [AInt (c_fd c3); ABytes data; bool_arg false] w3 with
+        | (KErr _, w') => (false, w')
+        | (_, w') => (true, w')
+        end
+      else if (match c_out c3 with [] => false | _ => true end) then
+        (true, wsetc w3 cid (c_set_out c3 (c_out c3 ++ data)))
+      else
+        open_loop cid (S (List.length (inp w3))) data w3
+    end.
+
+Definition open_tail (fuel : nat) (cid : Z) (act : action) (ok : bool) (w4 : world) : res * world :=
+  let w4 := ghost "openreply-end" cid [] w4 in
+  if negb ok then (RErr, w4)
+  else
+    let c4 := wc w4 cid in
+    let '(r5, w5) :=
+      match c_out c4 with
+      | _ :: _ => if l_et (st w4) then (RNil, w4) else epctl "mod" (c_fd c4) true false w4
+      | [] => (RNil, w4)
+      end in
+    match r5 with
+    | RNil =>
+      match act with
+      | ANone => (RNil, w5)
+      | AClose => el_close fuel cid true w5
+      | AShutdown => (RShutdown, w5)
+      end
+    | r => (r, w5)
+    end.
+
+Lemma el_open_parts : forall (fuel : nat) (cid : Z) (w : world),
+  el_open fuel cid w =
+  (let c := wc w cid in
+   let w1 := wsetc w cid (c_set_opened c true) in
+   let w2 := emit (obs "cb" [ASym "open"; AInt cid]) w1 in
+   let '(act, reply, w3) := handler fuel cid w2 in
+   if negb (c_opened (wc w3 cid)) then
+     match act with
+     | AShutdown => (RShutdown, w3)
+     | _ => (RNil, w3)
+     end
+   else
+     let '(ok, w4) := open_reply cid reply w3 in
+     open_tail fuel cid act ok w4).
 Proof. reflexivity. Qed.
